@@ -206,9 +206,12 @@ def run_svh_shard(leg, seed, tier, shard, shards, replay_path=None):
     caselog = os.path.join(tmpdir, "caselog")
     scale = leg.scale or _scale_for(leg.config)
     args = [leg.mon, "--seed", str(seed), "--tier", tier, "--scale", scale, "--shard", f"{shard}/{shards}",
-            "--out", out, "--caselog", caselog]
+            "--out", out]
+    if not leg.args.get("no_caselog"):
+        args += ["--caselog", caselog]
     for k, v in leg.args.items():
-        args += ["--" + k, str(v)]
+        if k != "no_caselog":
+            args += ["--" + k, str(v)]
     if replay_path:
         args += ["--replay", replay_path]
     if isinstance(bin_or, tuple):
